@@ -57,7 +57,7 @@ def run_solver(cmd, text, timeout):
     return "error", (out + "\n" + err)[:2000], time.time() - t0
 
 
-def solve_text(text, timeout=10, order=("z3", "cvc5"), both=False):
+def solve_text(text, timeout=10, order=("z3", "cvc5"), both=False, seeds=(7, 23)):
     tried = []
     final = None
     for be in order:
@@ -83,7 +83,7 @@ def solve_text(text, timeout=10, order=("z3", "cvc5"), both=False):
     # undecided: retry z3 with other random seeds (same budget) before giving up - verdicts must not flip on
     # incidental search order
     if "z3" in order:
-        for seed in (7, 23):
+        for seed in seeds:
             cmd = [Z3_BIN, f"-T:{int(timeout)}", f"-memory:{MEM_MB}", f"smt.random_seed={seed}", f"sat.random_seed={seed}", "-in"]
             st, out, secs = run_solver(cmd, text, timeout)
             tried.append((f"z3/seed{seed}", st, round(secs, 3)))
